@@ -15,6 +15,8 @@ mod c11;
 mod c14;
 mod c09;
 mod c17;
+mod c03;
+mod c03b;
 
 #[global_allocator]
 static GLOBAL: allocrec::Rec = allocrec::Rec;
@@ -41,6 +43,7 @@ fn main() {
         "C02" => c02::run(&mut out, tier, seed, corpus.as_deref()),
         "C08" => c08::run(&mut out, tier, seed, corpus.as_deref()),
         "C09" | "C18" | "C19" => c09::run(&mut out, tier, seed, corpus.as_deref(), prop),
+        "C03" => c03::run(&mut out, tier, seed, corpus.as_deref()),
         "C17" => c17::run(&mut out, tier, seed, corpus.as_deref()),
         "C14" => c14::run(&mut out, tier, seed, corpus.as_deref()),
         "C11" | "C10" => c11::run(&mut out, tier, seed, corpus.as_deref(), prop),
